@@ -13,6 +13,35 @@ jax.config.update("jax_enable_x64", True)
 from vlib.harness import EXIT_HARNESS, Check, _model, log  # noqa: E402
 
 
+def _isolate_parts(mod):
+    """every part function `_name(ck, ...)` of a check module runs in isolation: an encoding failure in one part
+    (the code no longer has the structure that part expects) is a harness error for that part only; the obligations
+    of all other parts are still built and decided, so a violation elsewhere is still reported"""
+    import functools
+    import inspect
+    import traceback
+
+    from vlib.harness import Check as _Check
+
+    for nm, fn in list(vars(mod).items()):
+        if not (inspect.isfunction(fn) and fn.__module__ == mod.__name__ and nm != "build"):
+            continue
+        params = list(inspect.signature(fn).parameters)
+        if not params or params[0] != "ck":
+            continue
+
+        def wrapped(ck, *args, __fn=fn, __nm=nm, **kw):
+            try:
+                return __fn(ck, *args, **kw)
+            except Exception as ex:
+                traceback.print_exc()
+                lab = ", ".join(repr(x)[:30] for x in args if isinstance(x, (int, str, tuple)))
+                ck.error(f"part {__nm}({lab}) could not be encoded: {ex!r}"[:500])
+                return None
+
+        setattr(mod, nm, functools.wraps(fn)(wrapped))
+
+
 def main():
     ap = argparse.ArgumentParser()
     ap.add_argument("pid")
@@ -25,23 +54,27 @@ def main():
     mod = importlib.import_module(f"checks.{pid.lower()}")
     ck = Check(pid, tier=a.tier if a.tier in ("quick", "thorough") else "quick", seed=seed)
     ck.only = a.only
+    _isolate_parts(mod)
     try:
         mod.build(ck)
-    except Exception as ex:  # encoding failure is a harness error, never a violation
+    except Exception as ex:  # encoding failure is a harness error, never a violation; obligations already built are still decided
         import traceback
 
         traceback.print_exc()
         ck.error(f"build failed: {ex!r}")
-        ck._evidence(ck.obls, 0, 0.0)
-        sys.exit(EXIT_HARNESS)
     if a.replay:
         data = json.load(open(a.replay))
         name = data["obligation"]
         o = next((o for o in ck.obls if o.name == name), None)
-        if o is None or o.replay is None:
+        if o is None:
             log(f"replay: obligation {name} not found in the current encoding")
             sys.exit(EXIT_HARNESS)
-        rr = o.replay(_model({"model": data.get("model", {})}))
+        from vlib import harness as _h
+
+        m = _model({"model": data.get("model", {})})
+        rr = o.replay(m) if o.replay is not None else {"reproduced": False, "detail": "no specific replay"}
+        if not rr.get("reproduced") and _h.DEFAULT_REPLAY is not None and o.kind == "solver":
+            rr = _h.DEFAULT_REPLAY(o)(m)
         log(json.dumps({k: v for k, v in rr.items() if k != "inputs"}, default=str)[:2000])
         if rr.get("reproduced"):
             log(f"VIOLATION property={pid} replay={a.replay}")
